@@ -243,6 +243,9 @@ pub fn malformed_manager<K: BoolKind>(n: u32, order: &[u32]) -> MRef<K> {
 
 pub fn import_malformed<K: BoolKind>(mr: &MRef<K>, n: u32, data: &[u8]) -> Result<bool, String> {
     let r = std::panic::catch_unwind(std::panic::AssertUnwindSafe(|| K::dddmp_import(mr, data, None)));
+    if std::env::var("VERIF_DEBUG").is_ok() {
+        eprintln!("import result: {:?}", r.as_ref().map(|x| x.as_ref().map(|(_, fs)| fs.len()).map_err(|e| e.clone())).map_err(|_| "panic"));
+    }
     match r {
         Err(e) => Err(format!("import-panic: {}", panic_msg(&e))),
         Ok(Err(_)) => Ok(false),
@@ -301,6 +304,8 @@ enum HMut {
     SwapLines(u16),
     /// mutate a byte of the node section (after ".nodes")
     Body(u16, u8, bool),
+    /// ASCII node section: toggle the complement sign of a child reference / replace a child id
+    Child(u16, u8, u8),
 }
 
 fn hmut_strategy() -> impl Strategy<Value = HMut> {
@@ -311,6 +316,7 @@ fn hmut_strategy() -> impl Strategy<Value = HMut> {
         2 => (any::<u16>(), proptest::collection::vec(any::<u8>(), 1..4)).prop_map(|(p, b)| HMut::Insert(p, b)),
         1 => any::<u16>().prop_map(HMut::SwapLines),
         8 => (any::<u16>(), any::<u8>(), any::<bool>()).prop_map(|(p, b, r)| HMut::Body(p, b, r)),
+        6 => (any::<u16>(), any::<u8>(), any::<u8>()).prop_map(|(p, c, v)| HMut::Child(p, c, v)),
     ]
 }
 
@@ -363,6 +369,29 @@ fn apply_hmut(data: &[u8], m: &HMut) -> Vec<u8> {
                         d[i] = *b;
                     } else {
                         d[i] ^= 1 << (b % 8);
+                    }
+                }
+            }
+        }
+        HMut::Child(p, c, v) => {
+            // node lines are "<id> <var|terminal> <then> <else>" between ".nodes" and ".end"
+            let text = String::from_utf8_lossy(&d).to_string();
+            let mut lines: Vec<String> = text.split('\n').map(|l| l.to_string()).collect();
+            if let (Some(a), Some(b)) = (lines.iter().position(|l| l.starts_with(".nodes")), lines.iter().position(|l| l.starts_with(".end"))) {
+                if b > a + 1 {
+                    let i = a + 1 + ((*p as usize * (b - a - 1)) >> 16);
+                    let mut f: Vec<String> = lines[i].split(' ').map(|x| x.to_string()).collect();
+                    if f.len() >= 4 {
+                        let k = 2 + (*c as usize % 2);
+                        f[k] = match v % 4 {
+                            0 | 1 => {
+                                if let Some(x) = f[k].strip_prefix('-') { x.to_string() } else { format!("-{}", f[k]) }
+                            }
+                            2 => format!("{}", 1 + (*v as usize / 4) % (b - a - 1)),
+                            _ => format!("-{}", 1 + (*v as usize / 4) % (b - a - 1)),
+                        };
+                        lines[i] = f.join(" ");
+                        d = lines.join("\n").into_bytes();
                     }
                 }
             }
@@ -650,6 +679,7 @@ pub fn run(cfg: &Cfg) -> i32 {
         rep.emit(w);
     }));
     crate::c15x::add_jobs(cfg, &mut jobs, &mut names);
+    crate::fzrun::add_jobs(cfg, "C15", &mut jobs, &mut names);
     let outs = run_jobs(&mut jobs, cfg.par, cfg.t(900, 7200));
     drop(jobs);
     let mut total = Report::default();
@@ -659,7 +689,7 @@ pub fn run(cfg: &Cfg) -> i32 {
         &total,
         Meta {
             level: "exploration",
-            rule: "round trips (proptest): 0..4 random functions over 3..8 variables under a random order as roots (incl. unused variables and shared nodes), BDD/BCDD/ZBDD, settings ASCII/binary x format 2.0/3.0 x strict on/off x diagram name (plain/with spaces/with control characters) x variable names (none, all, some; names with spaces, tabs, unicode, leading underscores, empty, names colliding with the sanitised form) x root names likewise. Checked: strict mode reports exactly when a name needs sanitising; every file the exporter completes is accepted by DumpHeader::load + import; in the same manager the imported handles == the originals; in a fresh manager whose order was set from support_var_order the imported tables equal the exported ones and the audit passes; header metadata (nvars, support ids, permids, support order, diagram name, variable names sanitised as documented, root names with _f{i}) equals what was exported. Malformed input: every truncation point of 6 valid files per kind plus 6..9 valid files written for the OTHER kinds (other terminal names, complemented edges, binary mode for kinds that only write ASCII) and seeded mutations (header field replaced by 0 / 2^32-1 / 2^64-1 / reversed / duplicated / negative / shortened, bit flips, deletions, insertions, swapped lines) imported in forked children with a 4 GiB address-space limit: a panic, abort, segfault or OOM is a violation, an accepted input must yield a well-formed diagram (structure + reference-count audit). Non-trivial = round trip with >= 2 roots, an unused variable and level != variable; truncated/mutated input reaching the importer.",
+            rule: "round trips (proptest): 0..4 random functions over 3..8 variables under a random order as roots (incl. unused variables and shared nodes), BDD/BCDD/ZBDD, settings ASCII/binary x format 2.0/3.0 x strict on/off x diagram name (plain/with spaces/with control characters) x variable names (none, all, some; names with spaces, tabs, unicode, leading underscores, empty, names colliding with the sanitised form) x root names likewise. Checked: strict mode reports exactly when a name needs sanitising; every file the exporter completes is accepted by DumpHeader::load + import; in the same manager the imported handles == the originals; in a fresh manager whose order was set from support_var_order the imported tables equal the exported ones and the audit passes; header metadata (nvars, support ids, permids, support order, diagram name, variable names sanitised as documented, root names with _f{i}) equals what was exported. Malformed input: every truncation point of 6 valid files per kind plus 6..9 valid files written for the OTHER kinds (other terminal names, complemented edges, binary mode for kinds that only write ASCII) and seeded mutations (header field replaced by 0 / 2^32-1 / 2^64-1 / reversed / duplicated / negative / shortened, bit flips, deletions, insertions, swapped lines, complement sign of a child reference toggled, child id replaced) imported in forked children with a 4 GiB address-space limit: a panic, abort, segfault or OOM is a violation, an accepted input must yield a well-formed diagram (structure + reference-count audit). Non-trivial = round trip with >= 2 roots, an unused variable and level != variable; truncated/mutated input reaching the importer. COVERAGE-GUIDED FUZZING: the libFuzzer targets of this property (harness/fuzz, entry points and decoders in fz.rs, the same oracle as above, built with AddressSanitizer, debug assertions and overflow checks) - quick tier: every committed seed and regression input is replayed through the in-process entry point; thorough tier: 3 libFuzzer campaigns per target with -runs=N -seed=f(VERIF_SEED) on fresh corpora initialised from the seeds (evaluations = executions, non-trivial = inputs kept for new coverage).",
             assumptions: vec!["for a mutated file there is no reference for what it should mean: the claim checked is 'rejected, or a well-formed diagram'".into(), "format 2.0 files carry names for support variables only; names of unused variables are checked for 3.0".into()],
             extra: json!({}),
         },
